@@ -53,6 +53,9 @@ type c19E2ECase struct {
 	Blocks  []string `json:"blocks"`            // per block: letters g (clean tx), b (tx carrying the misfitting value)
 	Misfit  string   `json:"misfit"`            // attribute "key=value" that the failing queries cannot evaluate
 	Comment string   `json:"comment,omitempty"`
+	// Stall > 0: Stall blocks of one transaction each; the block indexer's store does not return from indexing block 1 until
+	// the publisher has either finished or is blocked by back-pressure, then it is released
+	Stall int `json:"stalled_indexer_blocks,omitempty"`
 }
 
 // pass-through wrappers that only record which heights went through
@@ -70,10 +73,13 @@ func (w *c19TxIdx) AddBatch(b *txindex.Batch) error {
 type c19BlockIdx struct {
 	indexer.BlockIndexer
 	calls int64
+	gate  chan struct{} // non-nil: the first Index call waits for it
 }
 
 func (w *c19BlockIdx) Index(h types.EventDataNewBlockHeader) error {
-	atomic.AddInt64(&w.calls, 1)
+	if atomic.AddInt64(&w.calls, 1) == 1 && w.gate != nil {
+		<-w.gate
+	}
 	return w.BlockIndexer.Index(h)
 }
 
@@ -121,6 +127,7 @@ const (
 	c19KeyFrozen     = "state/txindex/indexer_service.go:event-bus-blocks-for-ever-after-indexer-missed-a-tx"
 	c19KeyContent    = "state/txindex/indexer_service.go:indexed-content-differs-from-published"
 	c19KeySlow       = "state/txindex/indexer_service.go:slow-subscriber-not-cancelled-or-indexer-affected"
+	c19KeyLag        = "state/txindex/indexer_service.go:blocks-published-while-the-index-store-stalls-are-never-indexed"
 )
 
 var c19FrozenLoops int // server loops left blocked for ever by earlier scenarios (they cannot be stopped)
@@ -132,6 +139,14 @@ func c19RunE2E(r *vr.Report, c c19E2ECase) (key, what string) {
 	}
 	txI := &c19TxIdx{TxIndexer: kv.NewTxIndex(dbm.NewMemDB())}
 	blI := &c19BlockIdx{BlockIndexer: blockidxkv.New(dbm.NewMemDB())}
+	released := true
+	if c.Stall > 0 {
+		blI.gate, released = make(chan struct{}), false
+		c.Blocks = nil
+		for i := 0; i < c.Stall; i++ {
+			c.Blocks = append(c.Blocks, "g")
+		}
+	}
 	svc := txindex.NewIndexerService(txI, blI, bus, false)
 	if err := svc.Start(); err != nil {
 		panic(err)
@@ -241,7 +256,38 @@ func c19RunE2E(r *vr.Report, c c19E2ECase) (key, what string) {
 		parked := c19All(idxStates, "chan receive")
 		// re-read the counters AFTER the stack snapshot: parked + unchanged counters = nothing in flight
 		same := nIdx == atomic.LoadInt64(&txI.batches) && nCalls == atomic.LoadInt64(&blI.calls) && nPub == atomic.LoadInt64(&published)
+		if !released {
+			// the index store is stalled in block 1: wait until the publisher is through, or is held back by the unbuffered
+			// subscription (server loop parked in a send, nothing moving), then let the store go on
+			blockedPub := false
+			if !pubDone && same {
+				for _, st := range loopStates {
+					if st == "chan send" {
+						blockedPub = true
+					}
+				}
+			}
+			if pubDone || blockedPub {
+				stable++
+				if pubDone || stable >= 3 {
+					close(blI.gate)
+					released, stable = true, 0
+				}
+			} else {
+				stable = 0
+			}
+			time.Sleep(2 * time.Millisecond)
+			continue
+		}
 		switch {
+		case pubDone && parked && same && nCalls < int64(len(all)) && c.Stall > 0:
+			stable++
+			if stable >= 3 {
+				verdictKey = c19KeyLag
+				verdictWhat = fmt.Sprintf("%d blocks were published while the block index store was busy with block 1; after the store went on, the IndexerService indexed %d of them and now waits for events nobody will send: "+
+					"blocks %d.. and their transactions are never indexed and nothing reported it", len(all), nCalls, nCalls+1)
+				decided = true
+			}
 		case pubDone && parked && same && nCalls < int64(len(all)):
 			// (b) all deliveries complete, indexer waits for a transaction of block nCalls+1 that nobody will send
 			stable++
@@ -338,7 +384,7 @@ func TestVerifC19E2E(t *testing.T) {
 	r := vr.Start("C19", "e2e", 100*time.Second, 10*time.Minute)
 	defer r.Finish()
 	r.Rule = "all combinations of (other subscribers of the event bus: none / 63 failing integer comparisons / 63 failing date comparisons / 3 slow readers / both) x " +
-		"(block pattern) x (misfitting attribute value) on a real running EventBus + IndexerService + kv indexers; non-trivial = other subscribers present and a misfitting value published"
+		"(block pattern) x (misfitting attribute value), and an index store that stalls in block 1 while 2 / 50 / 1100 blocks are published, on a real running EventBus + IndexerService + kv indexers; non-trivial = other subscribers present and a misfitting value published"
 	r.Assume("the application emits events only through the EventBus methods used by the node (PublishEventNewBlockHeader, PublishEventTx)")
 	r.Assume("a goroutine shown as [chan receive] by runtime.Stack is parked on that receive (exact runtime state)")
 	var rc c19E2ECase
@@ -405,6 +451,10 @@ func TestVerifC19E2E(t *testing.T) {
 				run(c)
 			}
 		}
+	}
+	// the index store stalls while many blocks are published (the subscription must hold the publisher back, or at least lose nothing)
+	for _, n := range []int{2, 50, 1100} {
+		run(c19E2ECase{Others: "none", Misfit: "n=abc", Stall: n})
 	}
 	for _, c := range last {
 		run(c)
